@@ -546,8 +546,12 @@ class FunctionStub(Stub):
         # specify the function that should be used to format annotations.
         # Only strip a module name where it starts a dotted name (so stripping
         # "foo." leaves "barfoo.Baz" and the class in "foo.foo.Inner" alone).
-        for module in sorted(self.strip_modules, key=len, reverse=True):
-            s = re.sub(r"(?<![\w.])" + re.escape(module) + r"\.", "", s)
+        # In a single pass, longest name first: text exposed by stripping one
+        # prefix must not be taken for another module's prefix.
+        modules = sorted(sorted(self.strip_modules), key=len, reverse=True)
+        if modules:
+            pattern = "|".join(re.escape(module) for module in modules)
+            s = re.sub(r"(?<![\w.])(?:" + pattern + r")\.", "", s)
         if self.kind == FunctionKind.CLASS:
             s = prefix + "@classmethod\n" + s
         elif self.kind == FunctionKind.STATIC:
